@@ -44,6 +44,7 @@ func init() {
 		c14Run(c, c.N(260, 3000))
 		c14ParseQuery(c, c.N(300, 4000))
 		c14SigInput(c, c.N(300, 4000))
+		c14UrlModel(c, c.N(1500, 30000))
 	}
 }
 
